@@ -49,6 +49,10 @@ var pool = []request{
 	{name: "full introspection", q: introspectionQuery},
 	{name: "type introspection", q: `{ __type(name: "In") { inputFields { name defaultValue } } o: __type(name: "O") { fields { name args { name } } interfaces { name } } i: __type(name: "I") { possibleTypes { name } fields { name } } }`},
 	{name: "mutation", q: `mutation { m1 m2 m3 { x y } m4 { x } }`, out: []model.Outcome{model.ThunkOK}},
+	// three requests with one normalised shape up to aliases, literals and a variable
+	{name: "alias k, literal", q: `{ k: f(x: 1) o { x } }`},
+	{name: "alias j, other literal", q: `{ j: f(x: 2) o { x } }`},
+	{name: "no alias, variable", q: `query($x: Int = 3) { f(x: $x) o { x } }`},
 }
 
 var curX *explore.X
